@@ -477,6 +477,44 @@ theorem endpoint_dummy_on_hline (s : Scene) (i : Nat) (c : Conn) (hc : s.fixDirs
     · simp [h1, h2]
     · simp [h1, h2]
 
+/-- **Meaning of one pass of `setLongRangeVisibilityFlags`.**  The `i`-th breakpoint of a line (in the order
+    of the breakpoint set) gets the CONN bit iff a connector end point, and the EDGE bit iff a shape-corner
+    vertex, is among the breakpoints strictly before it (`sc`/`se`: already seen before the list starts). -/
+theorem scanMask_spec (eb cb : Nat) (sc se : Bool) (l : List (Bool × Bool)) (i : Nat) (h : i < l.length) :
+    (scanMask eb cb sc se l)[i]? =
+      some ((if sc || (l.take i).any (·.1) then cb else 0) + (if se || (l.take i).any (·.2) then eb else 0)) := by
+  induction l generalizing sc se i with
+  | nil => simp at h
+  | cons a r ih =>
+    obtain ⟨c, e⟩ := a
+    cases i with
+    | zero => simp [scanMask]
+    | succ j =>
+      have hj : j < r.length := by simpa using h
+      simp only [scanMask, List.getElem?_cons_succ, List.take_succ_cons, List.any_cons]
+      rw [ih (sc || c) (se || e) j hj]
+      simp [Bool.or_assoc]
+
+/-- **The lines of the model are the connected components** of the candidate segments: any two different
+    horizontal lines (and any two different vertical lines) of the model are well formed and do not meet —
+    a point of the plane lies on at most one horizontal and one vertical line.  (`SegmentListWrapper::insert`
+    keeps its list pairwise non-overlapping, whatever the insertion order.) -/
+theorem lines_disjoint (s : Scene) :
+    Disjoint (s.lines.hs.map (·.1)) ∧ Disjoint (s.lines.vs.map (·.1)) := by
+  have e1 : s.lines.hs.map (·.1) = mergeAll (rawH s.lo s.hi s.rects s.fixDirs) := by
+    simp [Scene.lines, List.map_map, Function.comp_def]
+  have e2 : s.lines.vs.map (·.1) = mergeAll (rawV s.lo s.hi (s.rects.map Rect.tr) (s.fixDirs.map Conn.tr)) := by
+    simp [Scene.lines, List.map_map, Function.comp_def]
+  rw [e1, e2]
+  constructor
+  · exact mergeAll_disjoint _ (fun r hr => (rawH_good _ _ _ _ (fun v hv => (rect_bounds s v hv).1) r hr).wf)
+  · apply mergeAll_disjoint
+    intro r hr
+    refine (rawV_good _ _ _ _ ?_ r hr).wf
+    intro v hv
+    obtain ⟨v', hv', rfl⟩ := List.mem_map.mp hv
+    exact (rect_bounds s v' hv').2
+
 /-! ### non-vacuity: a closed scene (one routing box, one connector with a restricted source) -/
 
 /-- box [2,4]×[2,4]; source (0,3) may only be left to the Right, target (6,3) in all directions -/
